@@ -727,3 +727,30 @@ def rescaled_time_strings(repo, prefixes=("mpf/",)):
                 if k and c:
                     out.append((f, x, src(x)))
     return out, n
+
+
+STOP_LOOPS = {
+    "game": ("mpf/modes/game/code/game.py", "Game._stop_game_modes", {("mode.is_game_mode", True), ("mode.active", True)}, "self.machine.modes.values()"),
+    "ball": ("mpf/core/mode_controller.py", "ModeController._ball_ending", {("mode.is_game_mode", True), ("mode.auto_stop_on_ball_end", True)}, "self.active_modes"),
+}
+
+
+def stop_loop_selection(chk, rule, which, why):
+    """The loops that stop modes and wait for them (game end, ball end): every mode matching the stated condition is stopped with a
+    completion callback -- no further condition exempts a mode (one that is already stopping still has to finish), the loop ranges
+    over the whole collection and is never left early."""
+    rel, qual, want, coll = STOP_LOOPS[which]
+    f = chk.repo.func(rel, qual)
+    chk.analysed(f)
+    cfg = f.cfg()
+    st = [(n, c) for n, c in cfg.calls_named("stop") if src(c.func.value) == "mode" and kwarg(c, "callback") is not None]
+    chk.need(len(st) == 1, rule, "%s stops the modes with a completion callback" % qual, f)
+    lh = [h for h in cfg.nodes if h.kind == "loop" and any(y is st[0][1] for y in ast.walk(h.ast))]
+    chk.need(lh, rule, "%s stops the modes in a loop" % qual, f)
+    g = positive(inloop_guards(cfg, st[0][0].id, lh[-1].id))
+    chk.ob(rule, "%s waits for every mode that matches %s - no further condition exempts a mode (%s)" % (qual, sorted(k for k, _ in want), why), g == want,
+           f.where(st[0][1]), detail="selection %s" % sorted(g), construct=f.ident, text="stop loop selection")
+    lp = lh[-1].ast
+    ok = src(lp.iter) == coll and not any(isinstance(y, (ast.Break, ast.Return)) for y in ast.walk(lp))
+    chk.ob(rule, "%s looks at all of %s and never leaves the loop early" % (qual, coll), ok, f.where(lp), detail=src(lp.iter), construct=f.ident,
+           text="stop loop range")
